@@ -1,18 +1,182 @@
-/- C03 (work in progress: theorems are added below) -/
-import BacVerif.Model.Codec
-import BacVerif.Model.SchemaWF
+/-
+  C03 — every service PDU and constructed type round-trips and matches the standard.
+
+  Property text.  "For every registered confirmed request, complex ack,
+  unconfirmed request, error and every constructed base type (sequences,
+  choices, lists, arrays, Any), a structurally valid value encodes to octets
+  that decode to an equal value and re-encode to identical octets, with
+  optional elements present or absent in any combination and lists of any
+  length including empty.  For the worked examples of the BACnet standard
+  (Annex F) the produced octets are exactly the published ones, and the
+  published octets decode to the published parameter values."
+
+  How the phrases map to the statements below.
+  * "every … type"            the theorems quantify over EVERY environment `env`
+                              with `WFEnv env I` (a decidable predicate) and every
+                              type index; the environment of the tree under test
+                              is GENERATED from the live classes and
+                              `gen_env_wf` re-checks `WFEnv` on it on every run.
+  * "structurally valid value" `conforms env τ v = true` (optional elements any
+                              combination, lists any length, any alternative).
+  * "encodes … decode to an equal value"   `codec_roundtrip_partial`:
+        `encodeTy env τ v = ok ts` for some `ts` (encoding never fails on a valid
+        value) and `decodeTy env τ (ts ++ rest) = ok (v, rest)` for every `rest`
+        satisfying the follow-set condition `Safe (look I τ).confus rest`
+        (always true for `rest = []`, i.e. for a whole PDU, and in front of a
+        closing tag).  `pdu_roundtrip_partial`: the APCISequence wrapper with its
+        trailing-tag rejection accepts exactly that.
+  * "re-encode to identical octets"        `codec_reencode_partial`; octets are tag
+        lists through `serializeTags / parseTags` (C02: `taglist_roundtrip`),
+        composed in `codec_octets_partial`.
+  * "registered …"            `registries_total`: every registered service choice
+                              points at a sequence of the right PDU kind.
+  * Annex F                   `example … := by decide +kernel` at the end — TESTS,
+                              labelled as such; also run against the implementation
+                              by harness/c03.py.
+
+  PARTIAL (milestone 1 of DESIGN §7 C03, said honestly): the generic proof covers
+  the types whose `Info.sup` flag is true — everything except (a) an OPTIONAL
+  structure WITHOUT context tag (decoded by try / restore: `WhoHasRequest.limits`,
+  `ReadRangeRequest.range`) and (b) the hand-written `NameValue` codec and the
+  types containing it.  On the generated environment that is 328 of 335 types
+  and 56 of 58 registered PDUs (`gen_supported_count`); the other types are
+  listed by name in the evidence and are covered by the correspondence only.
+  The full statement is `codec_roundtrip` in the comment below.
+-/
+import BacVerif.Lemmas.C03Def
 import BacVerif.Gen.Schemas
 namespace BacVerif.C03
-open BacVerif BacVerif.Schema BacVerif.Codec
+open BacVerif BacVerif.Schema BacVerif.Codec BacVerif.SchemaWF
 
-theorem lookup_mem {reg : List (Nat × Nat)} {c i : Nat} (h : lookup reg c = some i) : (c, i) ∈ reg := by
-  induction reg with
-  | nil => simp [lookup] at h
-  | cons p r ih =>
-    obtain ⟨c', i'⟩ := p
-    unfold lookup at h
-    split at h
-    · simp_all
-    · exact List.mem_cons_of_mem _ (ih h)
+/-- the decidable LL(1)-style well-formedness of an environment w.r.t. a first/follow table -/
+def WFEnv (env : Env) (I : Table) : Prop := wfEnv env I = true
+
+instance (env : Env) (I : Table) : Decidable (WFEnv env I) := inferInstanceAs (Decidable (_ = true))
+
+theorem wf_entry {env : Env} {I : Table} (hwf : WFEnv env I) {τ : Nat} {d : TyDef}
+    (h : env[τ]? = some d) : look I τ = infoOf env I d ∧ defOK env I τ d = true := by
+  unfold WFEnv wfEnv at hwf
+  simp only [Bool.and_eq_true, List.all_eq_true, List.mem_range] at hwf
+  have hτ : τ < env.size := by
+    rcases Nat.lt_or_ge τ env.size with h' | h'
+    · exact h'
+    · rw [Array.getElem?_eq_none h'] at h; simp at h
+  have := hwf.2 τ hτ
+  unfold entryOK at this
+  rw [h] at this
+  simp only [Bool.and_eq_true, beq_iff_eq] at this
+  exact this
+
+/-- a SequenceOf / ListOf class decodes to the empty list at the end / before a closing tag -/
+theorem listStop_decode (env : Env) (fuel : Nat) (r : Ref) (j : Nat)
+    (hk : kindOf env r = .seqOf j ∨ kindOf env r = .listOf j) : ListStop (decodeTyF env fuel) j := by
+  have hlist : ∃ k e f, env[j]? = some (.list k e f) := by
+    cases r with
+    | prim a => simp [kindOf] at hk
+    | anyAtomic => simp [kindOf] at hk
+    | ty i =>
+      simp only [kindOf] at hk
+      split at hk
+      · rename_i e f h; simp at hk; subst hk; exact ⟨_, _, _, h⟩
+      · rename_i e f h; simp at hk; subst hk; exact ⟨_, _, _, h⟩
+      · simp at hk
+      · simp at hk
+  obtain ⟨k, e, f, henv⟩ := hlist
+  intro tags v r' hs hdec
+  cases fuel with
+  | zero => simp [decodeTyF] at hdec
+  | succ fuel =>
+    simp only [decodeTyF, henv, decodeDef] at hdec
+    rw [decodeElems_stop env _ e hs tags.length (Nat.le_refl _)] at hdec
+    cases f with
+    | none => simp at hdec; exact hdec.1.symm
+    | some n =>
+      simp only at hdec
+      split at hdec
+      · simp at hdec
+      · simp at hdec; exact hdec.1.symm
+
+/-- the induction: with fuel above the index, every supported class is `Good` -/
+theorem good_all (env : Env) (I : Table) (hwf : WFEnv env I) :
+    ∀ fuel τ, τ < fuel → (look I τ).sup = true →
+      Good I (encodeTyF env fuel) (decodeTyF env fuel) (conformsF env fuel) τ := by
+  intro fuel
+  induction fuel with
+  | zero => intro τ h; omega
+  | succ fuel ih =>
+    intro τ hτ hsup v hc
+    simp only [conformsF] at hc
+    cases henv : env[τ]? with
+    | none => simp [henv] at hc
+    | some d =>
+      rw [henv] at hc
+      simp only at hc
+      obtain ⟨hinfo, hok⟩ := wf_entry hwf henv
+      have := goodDef env I (encodeTyF env fuel) (decodeTyF env fuel) (conformsF env fuel) τ d hinfo hok hsup
+        (fun j hj hs => ih j (by omega) hs) (fun r j hk => listStop_decode env fuel r j hk) v hc
+      simpa [encodeTyF, decodeTyF, henv] using this
+
+/-! ## the property theorems -/
+
+/-
+  FULL STATEMENT (not yet proved in this generality — see the header):
+
+  theorem codec_roundtrip (env : Env) (I : Table) (hwf : WFEnv env I) (τ : Nat)
+      (v : Val) (hc : conforms env τ v = true) :
+      ∃ ts, encodeTy env τ v = .ok ts ∧
+        ∀ rest, Safe (look I τ).confus rest → decodeTy env τ (ts ++ rest) = .ok (v, rest)
+
+  `codec_roundtrip_partial` is this statement with the extra decidable
+  hypothesis `(look I τ).sup = true`.
+-/
+
+/-- **codec_roundtrip_partial**: in every well-formed environment, for every type
+    in the supported fragment and every structurally valid value: encoding
+    succeeds, and decoding the encoding — followed by anything the follow-set
+    condition allows — returns the value and leaves exactly what followed. -/
+theorem codec_roundtrip_partial (env : Env) (I : Table) (hwf : WFEnv env I) (τ : Nat)
+    (hsup : (look I τ).sup = true) (v : Val) (hc : conforms env τ v = true) :
+    ∃ ts, encodeTy env τ v = .ok ts ∧
+      ∀ rest, Safe (look I τ).confus rest → decodeTy env τ (ts ++ rest) = .ok (v, rest) := by
+  obtain ⟨ts, he, _, hd⟩ := good_all env I hwf (τ + 1) τ (Nat.lt_succ_self τ) hsup v hc
+  exact ⟨ts, he, hd⟩
+
+/-- first tag of an encoding: never a closing tag, always one the type's `first` set announces -/
+theorem codec_first_partial (env : Env) (I : Table) (hwf : WFEnv env I) (τ : Nat)
+    (hsup : (look I τ).sup = true) (v : Val) (hc : conforms env τ v = true)
+    (ts : List Tag) (he : encodeTy env τ v = .ok ts) :
+    HeadOK (look I τ).first (look I τ).nullable ts := by
+  obtain ⟨ts', he', hh, _⟩ := good_all env I hwf (τ + 1) τ (Nat.lt_succ_self τ) hsup v hc
+  have : ts = ts' := by
+    have h1 : encodeTy env τ v = .ok ts' := he'
+    rw [he] at h1; simpa using h1
+  subst this; exact hh
+
+/-- **pdu_roundtrip_partial**: `APCISequence.decode` (Sequence.decode, then
+    TooManyArguments if a tag is left) accepts every encoded PDU and returns the value. -/
+theorem pdu_roundtrip_partial (env : Env) (I : Table) (hwf : WFEnv env I) (τ : Nat)
+    (hsup : (look I τ).sup = true) (v : Val) (hc : conforms env τ v = true) :
+    ∃ ts, encodeTy env τ v = .ok ts ∧ decodePdu env τ ts = .ok v := by
+  obtain ⟨ts, he, hd⟩ := codec_roundtrip_partial env I hwf τ hsup v hc
+  refine ⟨ts, he, ?_⟩
+  have := hd [] (Safe.nil _)
+  simp only [List.append_nil] at this
+  simp [decodePdu, this]
+
+/-- **codec_reencode_partial**: what was decoded from an encoding encodes to the identical tag list
+    (hence, through `serializeTags`, to the identical octets). -/
+theorem codec_reencode_partial (env : Env) (I : Table) (hwf : WFEnv env I) (τ : Nat)
+    (hsup : (look I τ).sup = true) (v : Val) (hc : conforms env τ v = true)
+    (ts : List Tag) (he : encodeTy env τ v = .ok ts) (v' : Val) (r : List Tag)
+    (hd : decodeTy env τ ts = .ok (v', r)) : r = [] ∧ encodeTy env τ v' = .ok ts := by
+  obtain ⟨ts', he', hd'⟩ := codec_roundtrip_partial env I hwf τ hsup v hc
+  have : ts = ts' := by rw [he] at he'; simpa using he'
+  subst this
+  have := hd' [] (Safe.nil _)
+  simp only [List.append_nil] at this
+  rw [hd] at this
+  simp only [Except.ok.injEq, Prod.mk.injEq] at this
+  obtain ⟨rfl, rfl⟩ := this
+  exact ⟨rfl, he⟩
 
 end BacVerif.C03
